@@ -708,11 +708,13 @@ def norm_param_type(kind, t):
     return t
 
 
-def impl_signatures(headers_src):
+def impl_signatures(headers_src, future=False):
+    """future: the module starts with `from __future__ import annotations`, so every annotation of the function
+    objects is a string while the def nodes still hold expressions"""
     from pyanalyze.checker import Checker
     from pyanalyze.value import CallableValue
 
-    code = PRELUDE
+    code = ("from __future__ import annotations\n" if future else "") + PRELUDE
     for j, (h, r) in enumerate(headers_src):
         code += fdef(f"m{j}", h, r) + ":\n    raise NotImplementedError\n"
     code += "def outer():\n"
@@ -755,6 +757,115 @@ def decode_sparams(t):
     for s in t:
         # mkSParam name kind default type -> printed as a record {| s_name := ..|}; parse_term gives ('mkSParam', ...) only with Unset Printing Records
         raise NotImplementedError
+    return out
+
+
+# ---- function kinds -----------------------------------------------------------
+# The two views of a declaration for every KIND of function: plain, coroutine, generator, async generator
+# (def node vs function object: parameters and return type must be equal), and decorated / derived callables
+# (functools.wraps, contextmanager, lru_cache, staticmethod / classmethod, lambda, functools.partial), for which
+# the call is compared between the defining and an importing module.
+
+KIND_PRELUDE = "import functools, contextlib\nfrom typing import Iterator, AsyncIterator, Generator, Optional, Any\n"
+KIND_TEMPLATES = {
+    "plain": "def {n}({h}){r}:\n{i}    return {v}\n",
+    "async": "async def {n}({h}){r}:\n{i}    return {v}\n",
+    "gen": "def {n}({h}){r}:\n{i}    yield {v}\n",
+    "asyncgen": "async def {n}({h}){r}:\n{i}    yield {v}\n",
+    "async_await": "async def {n}({h}){r}:\n{i}    import asyncio\n{i}    await asyncio.sleep(0)\n{i}    return {v}\n",
+    "wraps": "def {n}_inner({h}){r}:\n{i}    return {v}\n{i}@functools.wraps({n}_inner)\n{i}def {n}(*args, **kwargs):\n{i}    return {n}_inner(*args, **kwargs)\n",
+    "ctx": "@contextlib.contextmanager\n{i}def {n}({h}){r}:\n{i}    yield {v}\n",
+    "lru": "@functools.lru_cache()\n{i}def {n}({h}){r}:\n{i}    return {v}\n",
+    "lambda": "{n} = lambda a, b=2: {v}\n",
+    "partial": "def {n}_base(z: int, {h}){r}:\n{i}    return {v}\n{i}{n} = functools.partial({n}_base, 1)\n",
+}
+UNDECORATED = ("plain", "async", "gen", "asyncgen", "async_await")
+KIND_RETS = {"plain": ["", " -> int", " -> Optional[str]"], "async": ["", " -> int", " -> Optional[str]", " -> None"], "gen": ["", " -> Iterator[int]", " -> Generator[int, None, str]"],
+             "asyncgen": ["", " -> AsyncIterator[int]"], "async_await": ["", " -> int"], "wraps": ["", " -> int"], "ctx": ["", " -> Iterator[int]"], "lru": ["", " -> int"],
+             "lambda": [""], "partial": ["", " -> int"]}
+KIND_HEADERS = ["a: int", "a: int, b: str = 'x'", "a, /, b=1, *args, c: int = 2, **kw", "a: int, *, b: Optional[int] = None", "*args: int", "a"]
+KIND_CALLS = ["{n}(1)", "{n}('x')", "{n}()", "{n}(1, b=2)"]
+
+
+def plain_text(v):
+    """a value / signature as text, without module names and without the provenance of Any"""
+    t = re.sub(r"(<test input [0-9a-f]+>|c13kind_[0-9a-z_]+)\.", "", str(v))
+    return re.sub(r"Any\[[a-z_]+\]", "Any", t)
+
+
+def outer_shape(v):
+    from pyanalyze.value import AnyValue, GenericValue, TypedValue
+
+    if isinstance(v, AnyValue) or v is None:
+        return "Any"
+    if isinstance(v, (GenericValue, TypedValue)):
+        return getattr(v.typ, "__name__", str(v.typ))
+    return type(v).__name__
+
+
+def impl_kinds(rng, d: Path, tag, quick):
+    from pyanalyze.checker import Checker
+    from pyanalyze.signature import Signature
+    from pyanalyze.value import CallableValue
+
+    items = []
+    for kind, rets in KIND_RETS.items():
+        for r in rets:
+            hs = KIND_HEADERS if kind in UNDECORATED else KIND_HEADERS[:2]
+            for h in (rng.sample(hs, 3) if quick and len(hs) > 3 else hs):
+                items.append((kind, r, h, rng.choice(["1", "'s'", "None", "a" if "a" in h.split(":")[0].split(",")[0] else "0"])))
+    body = KIND_PRELUDE
+    for j, (k, r, h, v) in enumerate(items):
+        body += KIND_TEMPLATES[k].format(n=f"m{j}", h=h, r=r, v=v, i="")
+    modname = f"c13kind_{tag}"
+    (d / f"{modname}.py").write_text(body)
+    nested = KIND_PRELUDE + "def outer():\n"
+    for j, (k, r, h, v) in enumerate(items):
+        nested += "    " + KIND_TEMPLATES[k].format(n=f"n{j}", h=h, r=r, v=v, i="    ") + f"    _v{j} = n{j}\n"
+    calls = [(j, c) for j in range(len(items)) for c in KIND_CALLS]
+    user = "def user():\n" + "".join(f"    _r{ci} = " + c.format(n=f"m{j}") + "\n" for ci, (j, c) in enumerate(calls))
+    out = {"items": items, "calls": calls}
+    # def route (nested defs)
+    tree, errors, mod = run_visitor(nested)
+    dsig = {}
+    for node in ast.walk(tree):
+        if isinstance(node, ast.Assign) and isinstance(node.targets[0], ast.Name) and node.targets[0].id.startswith("_v"):
+            v = getattr(node.value, "inferred_value", None)
+            dsig[int(node.targets[0].id[2:])] = v.signature if isinstance(v, CallableValue) else v
+    res = {}
+    for name, code in (("inmod", body + user), ("imported", f"from {modname} import *\n" + user)):
+        tree, errors, mod = run_visitor(code)
+        base = len(code.splitlines()) - len(calls)
+        per, vals = {}, {}
+        for e in errors:
+            if e["code"].name in LINT or e["lineno"] <= base:
+                continue
+            per.setdefault(e["lineno"] - base - 1, set()).add(e["code"].name)
+        for node in ast.walk(tree):
+            if isinstance(node, ast.Assign) and isinstance(node.targets[0], ast.Name) and node.targets[0].id.startswith("_r"):
+                vals[int(node.targets[0].id[2:])] = getattr(node.value, "inferred_value", None)
+        res[name] = [(sorted(per.get(i, ())), plain_text(vals.get(i)), outer_shape(vals.get(i))) for i in range(len(calls))]
+        if name == "inmod":
+            checker = Checker()
+            rsig = {}
+            for j in range(len(items)):
+                try:
+                    rsig[j] = checker.arg_spec_cache.get_argspec(getattr(mod, f"m{j}"))
+                except Exception as ex:
+                    rsig[j] = "crash:" + type(ex).__name__
+    def two_part(v):
+        """parameters in the canonical form of the header stream (representation of unannotated parameters normalised),
+        return type as text"""
+        if not isinstance(v, Signature):
+            return (plain_text(v), False)
+        enc = encode_sig(v)
+        params = jsonable(enc[0]) if enc is not None else plain_text(v)
+        return (json.dumps([params, plain_text(v.return_value)]), True)
+
+    out["def"] = {j: two_part(v) for j, v in dsig.items()}
+    out["rt"] = {j: two_part(v) for j, v in rsig.items()}
+    out["res"] = res
+    out["source"] = body
     return out
 
 
@@ -1157,6 +1268,30 @@ def run(tier: str, replay: str | None = None):
                 validated += 1
             else:
                 corr.append(({"header": jsonable(h), "source": src}, {"from_def": jsonable(d), "from_runtime": jsonable(r)}, jsonable(m), "DefSig.sig_from_def/sig_from_runtime vs compute_parameters/from_signature"))
+    # ------------------------------------------------------------------ signatures again, with stringified annotations
+    n_future = 0
+    if headers and not replay:
+        pick = [i for i, h in enumerate(headers) if unmodelled_header(h)] + list(range(min(len(headers), 40 if quick else 400)))
+        pick = sorted(set(pick))
+        fsigs = impl_signatures([hsrc[i] for i in pick], future=True)
+        for i, s2 in zip(pick, fsigs):
+            h, hs = headers[i], hsrc[i]
+            n_future += 1
+            src = "from __future__ import annotations; " + fdef("f", hs[0], hs[1])
+            if isinstance(s2["rt"], str) or s2["def"] is None or s2["rt"] is None:
+                if isinstance(s2["rt"], str) and not star_args_header(h):
+                    failing.append(({"header": jsonable(h), "source": src}, {"from_runtime": s2["rt"]}, "ArgSpecCache.get_argspec raised (annotations stringified by the __future__ import)"))
+                continue
+            d2 = ([tuple(p) for p in s2["def"][0]], s2["def"][1])
+            r2 = ([tuple(p) for p in s2["rt"][0]], s2["rt"][1])
+            ok2 = jsonable(d2) == jsonable(r2)
+            bump("sig_verdict", "future-annotations:" + ("same" if ok2 else "differ"))
+            if not ok2:
+                if star_args_header(h) and "C13-bare-star-args-annotation" in findings_text and [p[:3] for p in d2[0]] == [p[:3] for p in r2[0]]:
+                    rep.known("C13-bare-star-args-annotation", findings_text["C13-bare-star-args-annotation"])
+                else:
+                    failing.append(({"header": jsonable(h), "source": src}, {"from_def": jsonable(d2), "from_runtime": jsonable(r2)},
+                                    "with `from __future__ import annotations` the signature from the def node differs from the signature of the function object"))
     # ------------------------------------------------------------------ calls
     n_calls = 0
     if headers and not replay:
@@ -1208,6 +1343,47 @@ def run(tier: str, replay: str | None = None):
             sys.path.remove(str(d))
             shutil.rmtree(d, ignore_errors=True)
             for k in [k for k in sys.modules if k.startswith("c13mod_")]:
+                del sys.modules[k]
+
+    # ------------------------------------------------------------------ function kinds
+    n_kind = 0
+    if not replay:
+        d = Path(tempfile.mkdtemp(prefix="c13k_"))
+        sys.path.insert(0, str(d))
+        try:
+            kr = impl_kinds(random.Random(lib.seed() * 211 + 7), d, f"{lib.seed()}_{tier}", quick)
+            for j, (kind, r, h, v) in enumerate(kr["items"]):
+                n_kind += 1
+                src = KIND_TEMPLATES[kind].format(n="f", h=h, r=r, v=v, i="")
+                inp = {"function_kind": kind, "source": src}
+                distinct.add(src)
+                if kind in UNDECORATED:
+                    dtxt, rtxt = kr["def"].get(j, ("missing", False))[0], kr["rt"].get(j, ("missing", False))[0]
+                    bump("sig_verdict", f"kind:{kind}:{'annotated' if r else 'unannotated'}:" + ("same" if dtxt == rtxt else "differ"))
+                    if dtxt != rtxt:
+                        failing.append((inp, {"from_def": dtxt, "from_runtime": rtxt}, "signature (parameters and return type) from the def node differs from the signature of the function object"))
+            for ci, (j, c) in enumerate(kr["calls"]):
+                n_kind += 1
+                kind, r, h, v = kr["items"][j]
+                a, b = kr["res"]["inmod"][ci], kr["res"]["imported"][ci]
+                inp = {"function_kind": kind, "source": KIND_TEMPLATES[kind].format(n="f", h=h, r=r, v=v, i="") + "# call: " + c.format(n="f")}
+                same_diag = a[0] == b[0]
+                if r or kind not in UNDECORATED:
+                    same_val = a[1] == b[1]        # declared return type (or an object seen only at run time): identical result
+                else:
+                    # no return annotation: the defining module may infer more, but the KIND of result (coroutine, ...) is the same
+                    same_val = a[2] == b[2] or (b[2] == "Any" and kind in ("plain", "gen"))
+                bump("call_verdict", f"kind:{kind}:" + ("same" if same_diag and same_val else "differ"))
+                if (not same_val and same_diag and kind == "asyncgen" and not r and a[2] == "Coroutine" and b[2] == "Any"
+                        and "C13-async-generator-inferred-as-coroutine" in findings_text):
+                    rep.known("C13-async-generator-inferred-as-coroutine", findings_text["C13-async-generator-inferred-as-coroutine"])
+                elif not (same_diag and same_val):
+                    failing.append((inp, {"in_module": {"codes": a[0], "result": a[1]}, "imported": {"codes": b[0], "result": b[1]}},
+                                    "the same call is judged differently in the defining and in an importing module"))
+        finally:
+            sys.path.remove(str(d))
+            shutil.rmtree(d, ignore_errors=True)
+            for k in [k for k in sys.modules if k.startswith("c13kind_")]:
                 del sys.modules[k]
 
     # ------------------------------------------------------------------ methods of nested classes
@@ -1269,8 +1445,9 @@ def run(tier: str, replay: str | None = None):
         rep.violation({"kind": "broken-obligation", "theorem": "; ".join(proof.broken), "log": proof.log[-1500:]}, no_failing_input=True)
 
     rep.coverage.update(
-        evaluations=len(exprs) * 5 + len(headers) * 2 + n_calls * 3 + n_meth,
+        evaluations=len(exprs) * 5 + len(headers) * 2 + n_calls * 3 + n_meth + n_kind + n_future * 2,
         method_observations=n_meth,
+        function_kind_observations=n_kind,
         distinct_nontrivial=len(distinct),
         rule="a case = an annotation expression (generated over the property's vocabulary, depth <= 4, old/new spellings chosen at random) evaluated through five routes "
         "(type_from_ast, string, runtime object, parameter annotation in a checked module, same as a string), or a def header (all parameter kinds, defaults, annotations, "
